@@ -86,6 +86,11 @@ PairReq(L, n, a, b, conj, v) == LET sa == Cardinal(L, <<a, 0, 0, 0>>, v)  sb == 
                                     j == IF conj THEN " " \o ConjWord[L] \o " " ELSE " " IN
   [i |-> n, kind |-> "pair", lang |-> L, a |-> a, b |-> b, v |-> v, conj |-> conj, joiner |-> j,
    texts |-> <<sa \o j \o sb>>, thrs |-> <<"0">>, want |-> <<"rew">>]
+\* C10, second clause: punctuation between two spelled numbers keeps them apart
+Puncts == <<", ", "; ", ": ", "! ", "? ", " / ", " (", ") ", "… ", " – ", ". ", ",", " , ", "\" ">>
+PunctReq(L, n, ga0, gb0, v, pu) == LET ga == Clean(L, ga0)  gb == Clean(L, gb0) IN
+  [i |-> n, kind |-> "punct", lang |-> L, ga |-> ga, gb |-> gb, v |-> v, p |-> pu,
+   texts |-> <<Cardinal(L, ga, v) \o pu \o Cardinal(L, gb, v)>>, thrs |-> <<"0">>, want |-> WantOr(<<"rew">>)]
 DictReq(L, n, d) == [i |-> n, kind |-> "dict", lang |-> L, d |-> d, texts |-> <<Dictation(L, d)>>, thrs |-> <<"0">>, want |-> <<"rew">>]
 \* j-th digit string of length len (0-based j)
 NthDigits(j, len) == [p \in 1..len |-> Ch("0123456789", ((j \div Pow10(len - p)) % 10) + 1)]
@@ -125,6 +130,9 @@ ForLang(L, base) ==
                                               d == IF x % 2 = 0 THEN Params.fracs[((x * 7919) % nd) + 1]
                                                    ELSE SeqToStr0(DigitStr(Start(Seed, 91, x), 1 + (x % 6)))
                                           IN DecReq(L, base + x, GsOf(L, j), d)]
+  ELSE IF Kind = "punct" THEN
+    [x \in 1..(NNum * Len(Puncts)) |-> LET j == (x - 1) \div Len(Puncts)  pi == ((x - 1) % Len(Puncts)) + 1
+                                       IN PunctReq(L, base + x, GsOf(L, j), GsOf(L, (j * 7 + 3) % NNum), VS[(x % nv) + 1], Puncts[pi])]
   ELSE IF Kind = "pair" THEN
     [x \in 1..(10000 * 2 * Params.pairvariants) |->
         LET y == x - 1  a == y % 100  b == (y \div 100) % 100  cj == (y \div 10000) % 2 = 1  vi == (y \div 20000) + 1
